@@ -23,8 +23,13 @@ def malformed_unit(unit):
 
     def base(nt='diagonal', st='ito'):
         prog, y0, ch = matrix.problem(st, nt)
-        bm = torchsde.BrownianInterval(t0=0., t1=1., size=(y0.shape[0], ch), dtype=torch.float64, entropy=3)
+        # a Brownian motion every default solver accepts (srk needs space-time Levy area), so that the only thing wrong
+        # with each case below is the malformation itself; the well-formed control call is checked to run
+        bm = torchsde.BrownianInterval(t0=0., t1=1., size=(y0.shape[0], ch), dtype=torch.float64, entropy=3,
+                                       levy_area_approximation='space-time')
         return prog, y0, matrix.SpyBM(bm)
+
+    controls = []
 
     def add(name, fn, where='sdeint'):
         cases.append((name, fn, where))
@@ -37,6 +42,8 @@ def malformed_unit(unit):
             return call
         call = mk()
         T = lambda *v: torch.tensor(v, dtype=torch.float64)
+        for nt_ in zoo.NOISE_TYPES:
+            controls.append((f'{fname}:{nt_}:control', lambda c=call, nt_=nt_: (lambda p, y, b: c(p, y, T(0., 0.5), b))(*base(nt_))))
         add(f'{fname}:ts_decreasing', lambda c=call: (lambda p, y, b: c(p, y, T(0., 0.5, 0.25), b))(*base()))
         add(f'{fname}:ts_repeated', lambda c=call: (lambda p, y, b: c(p, y, T(0., 0.5, 0.5), b))(*base()))
         add(f'{fname}:ts_list_decreasing', lambda c=call: (lambda p, y, b: c(p, y, [0., 0.5, 0.25], b))(*base()))
@@ -49,28 +56,30 @@ def malformed_unit(unit):
             lambda c=call: (lambda p, y, b: c(p, y, T(0., 0.5).requires_grad_(True), b))(*base()))
         add(f'{fname}:dt_requires_grad',
             lambda c=call: (lambda p, y, b: c(p, y, T(0., 0.5), b, dt=torch.tensor(0.25, requires_grad=True)))(*base()))
-        add(f'{fname}:rtol_requires_grad',
-            lambda c=call: (lambda p, y, b: c(p, y, T(0., 0.5), b, rtol=torch.tensor(0.25, requires_grad=True)))(*base()))
+        for argname in ('rtol', 'atol', 'dt_min') + (('adjoint_rtol', 'adjoint_atol') if fname == 'sdeint_adjoint' else ()):
+            add(f'{fname}:{argname}_requires_grad',
+                lambda c=call, a=argname: (lambda p, y, b: c(p, y, T(0., 0.5), b,
+                                                             **{a: torch.tensor(0.25, requires_grad=True)}))(*base()))
         add(f'{fname}:unknown_method', lambda c=call: (lambda p, y, b: c(p, y, T(0., 0.5), b, method='rk45'))(*base()))
 
         for nt in zoo.NOISE_TYPES:
             def bm_batch(c=call, nt=nt):
                 p, y, _ = base(nt)
                 ch = p.d if nt == 'diagonal' else p.m
-                b = matrix.SpyBM(torchsde.BrownianInterval(0., 1., size=(y.shape[0] + 1, ch), dtype=torch.float64))
+                b = matrix.SpyBM(torchsde.BrownianInterval(0., 1., size=(y.shape[0] + 1, ch), dtype=torch.float64, levy_area_approximation='space-time'))
                 return c(p, y, T(0., 0.5), b), b
             add(f'{fname}:{nt}:bm_batch_mismatch', bm_batch)
 
             def bm_noise(c=call, nt=nt):
                 p, y, _ = base(nt)
                 ch = p.d if nt == 'diagonal' else p.m
-                b = matrix.SpyBM(torchsde.BrownianInterval(0., 1., size=(y.shape[0], ch + 1), dtype=torch.float64))
+                b = matrix.SpyBM(torchsde.BrownianInterval(0., 1., size=(y.shape[0], ch + 1), dtype=torch.float64, levy_area_approximation='space-time'))
                 return c(p, y, T(0., 0.5), b), b
             add(f'{fname}:{nt}:bm_noise_mismatch', bm_noise)
 
             def bm_1d(c=call, nt=nt):
                 p, y, _ = base(nt)
-                b = matrix.SpyBM(torchsde.BrownianInterval(0., 1., size=(y.shape[0],), dtype=torch.float64))
+                b = matrix.SpyBM(torchsde.BrownianInterval(0., 1., size=(y.shape[0],), dtype=torch.float64, levy_area_approximation='space-time'))
                 return c(p, y, T(0., 0.5), b), b
             add(f'{fname}:{nt}:bm_not_2d', bm_1d)
 
@@ -105,7 +114,7 @@ def malformed_unit(unit):
         def scalar_multi(c=call):
             p, y, _ = base('general')
             p.noise_type = 'scalar'
-            b = matrix.SpyBM(torchsde.BrownianInterval(0., 1., size=(y.shape[0], p.m), dtype=torch.float64))
+            b = matrix.SpyBM(torchsde.BrownianInterval(0., 1., size=(y.shape[0], p.m), dtype=torch.float64, levy_area_approximation='space-time'))
             return c(p, y, T(0., 0.5), b), b
         add(f'{fname}:scalar_noise_with_2_channels', scalar_multi)
 
@@ -145,6 +154,17 @@ def malformed_unit(unit):
             return c(q, y, T(0., 0.5), b), b
         add(f'{fname}:no_noise_type_attribute', no_nt)
 
+    for name, fn in controls:
+        out.count('executions')
+        try:
+            with warnings.catch_warnings():
+                warnings.simplefilter('ignore')
+                fn()
+            out.keys.add(('control', name))
+        except Exception as e:  # noqa
+            from ..core import HarnessError
+            raise HarnessError(f"malformed-input harness: the well-formed control call {name} failed: "
+                               f"{type(e).__name__}: {e}")
     for name, fn, where in cases:
         out.count('executions')
         with warnings.catch_warnings():
